@@ -1938,6 +1938,83 @@ def symmetry_pair(rng, acc, replay_of=None):
                         '(consideration %r, rates %r + %r)' % (qty, price, cb, cs, price * qty, c, x), case)
 
 
+class LateBook(object):
+    """Data handler whose assets have no quote (NaN) until one is set."""
+
+    def __init__(self):
+        self.q = {}
+
+    def get_asset_latest_bid_ask_price(self, dt, asset):
+        return self.q.get(asset, (np.nan, np.nan))
+
+    def get_asset_latest_bid_price(self, dt, asset):
+        return self.get_asset_latest_bid_ask_price(dt, asset)[0]
+
+    def get_asset_latest_ask_price(self, dt, asset):
+        return self.get_asset_latest_bid_ask_price(dt, asset)[1]
+
+    def get_asset_latest_mid_price(self, dt, asset):
+        b_, a_ = self.get_asset_latest_bid_ask_price(dt, asset)
+        return (b_ + a_) / 2.0
+
+
+def late_quote_script(rng):
+    """An order for an asset that gets its first quote only at the fill time, waiting through updates outside
+    exchange hours (C04: 'for assets that have a quote at the fill time')."""
+    day = pd.Timestamp('2021-03-0%d 21:00:00' % rng.choice([1, 2, 3, 4, 5]), tz='UTC')      # Mon..Fri close
+    closed = [day + pd.Timedelta(hours=h) for h in sorted(rng.sample([0, 1, 3, 12, 17], rng.randint(1, 4)))]
+    if day.weekday() == 4:
+        closed += [day + pd.Timedelta(days=1, hours=18), day + pd.Timedelta(days=2, hours=16)]      # weekend, in 14:30-21:00
+    nxt = day + pd.Timedelta(days=3 if day.weekday() == 4 else 1)
+    open_t = nxt.normalize() + pd.Timedelta(hours=14, minutes=30) + pd.Timedelta(minutes=rng.choice([0, 0, 1, 200]))
+    return {'t0': str(day), 'closed': [str(t) for t in closed if t < open_t], 'open': str(open_t),
+            'qty_late': rng.choice([1, -1]) * rng.randint(1, 500), 'qty_held': rng.randint(1, 300),
+            'price_late': rand_price(rng), 'price_held': rand_price(rng), 'hold_first': rng.random() < 0.7}
+
+
+def late_quote_case(sp, acc):
+    from qstrader.broker.simulated_broker import SimulatedBroker
+    from qstrader.exchange.simulated_exchange import SimulatedExchange
+    from qstrader.broker.fee_model.zero_fee_model import ZeroFeeModel
+    from qstrader.execution.order import Order
+    t0 = ts(sp['t0'])
+    book = LateBook()
+    book.q['EQ:OLD'] = (sp['price_held'], sp['price_held'])
+    b = SimulatedBroker(t0 - pd.Timedelta(hours=3), SimulatedExchange(t0), book, initial_funds=1e9, fee_model=ZeroFeeModel())
+    b.create_portfolio('p')
+    b.subscribe_funds_to_portfolio('p', 5e8)
+    if sp['hold_first']:
+        b.submit_order('p', Order(b.current_dt, 'EQ:OLD', sp['qty_held']))
+        b.update(t0 - pd.Timedelta(hours=3))          # 18:00 on a weekday: fills
+    b.update(t0)
+    b.submit_order('p', Order(t0, 'EQ:NEW', sp['qty_late'], order_id='late'))
+    before = (b.get_portfolio_cash_balance('p'), {a: d['quantity'] for a, d in b.get_portfolio_as_dict('p').items()})
+    for t in sp['closed']:
+        try:
+            b.update(ts(t))
+        except Exception as e:
+            raise Violation('C04', 'closed-update-raised/%s' % type(e).__name__, 'an order for EQ:NEW (first quote at the fill time '
+                            '%s) is pending; the update at %s, outside exchange hours, raised %r' % (sp['open'], t, e), sp)
+        now = (b.get_portfolio_cash_balance('p'), {a: d['quantity'] for a, d in b.get_portfolio_as_dict('p').items()})
+        if now != before or b.open_orders['p'].qsize() != 1:
+            raise Violation('C04', 'pending-order-touched', 'after the closed-hours update at %s the pending order for EQ:NEW is '
+                            'gone or cash/holdings moved: %s -> %s, queue %d' % (t, before, now, b.open_orders['p'].qsize()), sp)
+        acc.count('C04:closed_updates_before_first_quote')
+    book.q['EQ:NEW'] = (sp['price_late'], sp['price_late'])
+    try:
+        b.update(ts(sp['open']))
+    except Exception as e:
+        raise Violation('C04', 'fill-update-raised/%s' % type(e).__name__, 'EQ:NEW has a quote at %s; the update raised %r' % (sp['open'], e), sp)
+    held = {a: d['quantity'] for a, d in b.get_portfolio_as_dict('p').items()}
+    if held.get('EQ:NEW') != sp['qty_late'] or b.open_orders['p'].qsize() != 0:
+        raise Violation('C04', 'late-quoted-order-not-filled', 'order of %s EQ:NEW not filled in full at the first in-hours update %s: '
+                        'holdings %s, queue %d' % (sp['qty_late'], sp['open'], held, b.open_orders['p'].qsize()), sp)
+    want_cash = F(before[0]) - F(sp['price_late']) * sp['qty_late']
+    if not close(b.get_portfolio_cash_balance('p'), want_cash, abs(F(before[0]))):
+        raise Violation('C04', 'late-quoted-order-cash', 'cash after the fill is %r, expected %r' % (b.get_portfolio_cash_balance('p'), float(want_cash)), sp)
+    acc.count('C04:orders_waiting_for_a_first_quote')
+
+
 def shard_broker(spec, acc, prop, faults):
     rng = random.Random(spec['rng'])
     import time
@@ -1948,6 +2025,13 @@ def shard_broker(spec, acc, prop, faults):
             break
         nops = rng.choice([10, 20, 40, 40, 80, 120, 200])
         generate_and_run(rng, acc, prop, faults, nops)
+    if prop == 'C04':
+        for i in range(spec['cases'] * 2):
+            sp = late_quote_script(rng)
+            try:
+                late_quote_case(sp, acc)
+            except Violation as v:
+                acc.violation(v, {'late_quote': sp})
     if prop == 'C05':
         for i in range(spec['cases'] * 6):
             try:
